@@ -38,8 +38,18 @@ func Harness_C20_IntsUntidy() {
 	if nd.Bool("B-passthrough") {
 		pass = syslutil.MakeStrSet("B", "Nowhere")
 	}
-	failed, msg := nd.Recovered(func() { MakeBuilderfromStmt(mod, listed, syslutil.MakeStrSet(), pass) })
-	_ = msg
+	// the builder, then the view of its result: plain, clustered or endpoint analysis
+	view := nd.IntRange("view", 0, 3) // 0: builder only
+	proj := &sysl.Application{Name: &sysl.AppName{Part: []string{"Project"}}, Endpoints: map[string]*sysl.Endpoint{"V": {Name: "V", Stmt: listed}}}
+	mod.Apps["Project"] = proj
+	failed, msg := nd.Recovered(func() {
+		b := MakeBuilderfromStmt(mod, listed, syslutil.MakeStrSet("Project"), pass)
+		if view > 0 {
+			GenerateView(&Args{Title: "t", Project: "Project", Clustered: view == 2, Epa: view == 3},
+				&IntsParam{b.FinalApps, b.SeedAppsMap, b.DepsOut, proj, proj.Endpoints["V"]}, mod)
+		}
+	})
+	nd.Note(msg)
 	if tA == "Nowhere" || tB == "Nowhere" {
 		nd.Assert("ints:call-to-undefined-application", !failed)
 	} else {
